@@ -286,7 +286,7 @@ PROPERTY = {
             strategy=strat_confirmed_random,
             nontrivial=lambda L: "warning-while-waiting" in L,
             quick=400,
-            thorough=8000,
+            thorough=40000,
             shards_quick=4,
         ),
     ],
